@@ -242,7 +242,11 @@ def enum_manifests(seed):
                     if real_awf is not None:
                         class Boom(real_awf):
                             def close(self):   # the process dies after writing, before the file is committed
+                                self.flush()
                                 raise _Stop()
+
+                            def discard(self):  # ... and a dead process cleans nothing up: its temporary file stays
+                                pass
                         digest.AtomicWriteFile = Boom
                     import builtins
                     def guarded_open(p, mode="r", *a, **k):
@@ -264,10 +268,25 @@ def enum_manifests(seed):
                     after = open(mpath).read()
                     if after != before and not thin:
                         note({"seed": s, "thin": thin}, f"regeneration interrupted in the middle of the write left a Manifest that is neither the old nor the new text: {after[:80]!r}")
+                    # the regeneration after the interrupted one: covers exactly the package's files (whatever the dead run left lying around), and is then up to date
+                    if not thin and not blank:
+                        left = sorted(n for n in os.listdir(d) if n not in names and n not in ("files", "Manifest"))
+                        model = {"seed": s, "thin": thin, "files": sorted(names), "left_by_the_interrupted_run": left}
+                        try:
+                            fetch = [types.SimpleNamespace(filename=n, chksums=v) for n, v in dist.items()]
+                            digest.Manifest(mpath, thin=thin).update(fetch)
+                            got = digest.parse_manifest(mpath)
+                            covered = sorted([("files/" + k) for k in got[1]] + list(got[2]) + list(got[3]))
+                            if covered != sorted(names):
+                                note(model, f"the regeneration after an interrupted one (which left {left}) covers {covered}; the package's files are {sorted(names)}")
+                            elif digest.Manifest(mpath, thin=thin).update(fetch):
+                                note(model, f"the regeneration after an interrupted one (which left {left}) is not up to date: the next one wrote the file again")
+                        except Exception as e:
+                            note(model, f"the regeneration after an interrupted one (which left {left}) raised {type(e).__name__}: {e}")
     finally:
         shutil.rmtree(scratch, ignore_errors=True)
     return {"name": "C28.manifests.bounded_enumeration", "bound": "40 seeded package directories (2..8 files incl. files/ subtrees and a nested directory itself called files, 0..3 distfiles with random sizes and 512-bit checksums) x thick / thin x 3 checksum-type orders with shuffled fetchables: "
-            "parse back, text equality across orders, regeneration writes nothing, write interrupted half way", "cases": cases, "failures": fails}
+            "parse back, text equality across orders, regeneration writes nothing, write interrupted half way (the process dies: nothing is cleaned up) and regenerated afterwards", "cases": cases, "failures": fails}
 
 
 def tasks():
